@@ -189,3 +189,48 @@ impl Handler<InstanceDelayNotifyRequest> for ClusterInstanceDelayNotifyActor {
         Ok(InstanceDelayNotifyResponse::None)
     }
 }
+
+/// Verification hooks (compiled only with `--cfg rnacos_verif`).
+#[cfg(rnacos_verif)]
+#[derive(Message)]
+#[rtype(result = "anyhow::Result<Vec<(InstanceKey, Arc<Instance>, bool)>>")]
+pub enum VerifDelayCmd {
+    SetManage(Option<Addr<InnerNodeManage>>),
+    /// the pending items (key, instance, is_update)
+    Dump,
+    /// the genuine `do_notify` (what the 500 ms timer runs)
+    Flush,
+}
+
+#[cfg(rnacos_verif)]
+impl ClusterInstanceDelayNotifyActor {
+    /// an actor whose own timer fires every `delay` ms (a huge value leaves flushing to `Flush`)
+    pub fn verif_new_with_delay(delay: u64) -> Self {
+        let mut s = Self::new();
+        s.delay = delay;
+        s
+    }
+}
+
+#[cfg(rnacos_verif)]
+impl Handler<VerifDelayCmd> for ClusterInstanceDelayNotifyActor {
+    type Result = anyhow::Result<Vec<(InstanceKey, Arc<Instance>, bool)>>;
+
+    fn handle(&mut self, msg: VerifDelayCmd, _ctx: &mut Self::Context) -> Self::Result {
+        match msg {
+            VerifDelayCmd::SetManage(addr) => {
+                self.manage_addr = addr;
+                Ok(vec![])
+            }
+            VerifDelayCmd::Dump => Ok(self
+                .instances_map
+                .iter()
+                .map(|(k, v)| (k.clone(), v.instance.clone(), v.is_update))
+                .collect()),
+            VerifDelayCmd::Flush => {
+                self.do_notify();
+                Ok(vec![])
+            }
+        }
+    }
+}
